@@ -6,6 +6,18 @@ variable {inp : RunInput} {N : Nat}
 
 /-! ### `_update_waiting` -/
 
+theorem calOf_lt_aux (x wd : Node) (f : List Name)
+    (h1 : cntNot N x.dynCalc + x.pendCalc.length ≤ cntNot N wd.dynCalc + wd.pendCalc.length)
+    (e1 : x.pc = wd.pc) (e2 : x.snapCalc = wd.snapCalc) (e3 : x.waitRunCalc = f)
+    (hlt : f.length < wd.waitRunCalc.length) : calOf N x < calOf N wd := by
+  unfold calOf; rw [e1, e2, e3]; omega
+
+theorem linNode_wait_aux (w : Name) (x wd : Node) (f : List Name) (e1 : x.pendTask = wd.pendTask)
+    (e2 : x.pendCalc = wd.pendCalc) (e3 : x.pc = wd.pc) (e4 : x.snapTask = wd.snapTask)
+    (e5 : x.snapCalc = wd.snapCalc) (e6 : x.waitRunCalc = wd.waitRunCalc) (e7 : x.waitSelect = wd.waitSelect)
+    (e8 : x.waitRun = f) (hlt : f.length < wd.waitRun.length) : linNode inp w x + 5 ≤ linNode inp w wd := by
+  unfold linNode todoOf; rw [e1, e2, e3, e4, e5, e6, e7, e8]; omega
+
 theorem wokenNode_lt (hF : FiniteTable inp N) (pst : RS) (p w : Name) (wd : Node) (hnc : wakeCrash p wd = false) :
     calOf N (wokenNode inp pst p wd) < calOf N wd ∨
     (calOf N (wokenNode inp pst p wd) = calOf N wd ∧ linNode inp w (wokenNode inp pst p wd) + 5 ≤ linNode inp w wd) := by
@@ -19,13 +31,7 @@ theorem wokenNode_lt (hF : FiniteTable inp N) (pst : RS) (p w : Name) (wd : Node
       waitRun := wd.waitRun.filter (· ≠ p), waitRunCalc := wd.waitRunCalc.filter (· ≠ p) }
     have hlt : (wd.waitRunCalc.filter (· ≠ p)).length < wd.waitRunCalc.length :=
       List.length_filter_lt_length_iff_exists.mpr ⟨p, hc, by simp⟩
-    have e1 := g.pc
-    have e2 := g.snapCalc
-    have e3 := g.waitRunCalc
-    unfold m2Of at hm
-    simp only [parentStatus] at e1 e2 e3 hm
-    simp only [calOf, e1, e2, e3]
-    omega
+    exact calOf_lt_aux _ wd _ hm g.pc g.snapCalc g.waitRunCalc hlt
   · rename_i hc
     right
     have hw : p ∈ wd.waitRun := by
@@ -34,10 +40,7 @@ theorem wokenNode_lt (hF : FiniteTable inp N) (pst : RS) (p w : Name) (wd : Node
       exact hnc
     have hlt : (wd.waitRun.filter (· ≠ p)).length < wd.waitRun.length :=
       List.length_filter_lt_length_iff_exists.mpr ⟨p, hw, by simp⟩
-    constructor
-    · rfl
-    · simp only [linNode, todoOf, parentStatus]
-      omega
+    exact ⟨rfl, linNode_wait_aux w _ wd _ rfl rfl rfl rfl rfl rfl rfl rfl hlt⟩
 
 def Frame9 (s' s : Sys) : Prop := s'.toRun = s.toRun ∧ s'.cur = s.cur
 
@@ -155,17 +158,20 @@ theorem sameM_status {s s' : Sys} {n : Name} {nd : Node} (hn : s.nodes n = some 
     (e : s'.nodes = (setNode s n { nd with status := st }).nodes) : SameM inp N s' s := by
   refine (SameM.of_nodes e).trans ⟨?_, ?_, ?_⟩
   · apply cntNone_congr
-    intro k; simp only [setNode_nodes]; split
-    · rename_i e; subst e; simp [hn]
-    · rfl
+    intro k; simp only [setNode_nodes]
+    by_cases e : k = n
+    · subst e; simp [hn]
+    · simp [e]
   · apply sumF_congr
-    intro k; simp only [setNode_nodes]; split
-    · rename_i e; subst e; simp [hn, calOf]
-    · rfl
+    intro k; simp only [setNode_nodes]
+    by_cases e : k = n
+    · subst e; simp [hn, calOf]
+    · simp [e]
   · apply sumF_congr
-    intro k; simp only [setNode_nodes]; split
-    · rename_i e; subst e; simp [hn, linNode, todoOf]
-    · rfl
+    intro k; simp only [setNode_nodes]
+    by_cases e : k = n
+    · subst e; simp [hn, linNode, todoOf]
+    · simp [e]
 
 theorem mlt_sameM {s s' : Sys} (hm : SameM inp N s' s) (h : restOf s' < restOf s) : MLt inp N s' s := by
   obtain ⟨m1, m2, m3⟩ := hm
@@ -227,7 +233,7 @@ theorem serialStep_mlt (hF : FiniteTable inp N) {s s' : Sys} {perm : List Name}
             intro hd
             refine mlt_sameM (sameM_status hn (selStatus (selDecision inp n nd)) (applySel_nodes _ _ _ _ _ hd)) ?_
             obtain ⟨a, b, c, d⟩ := applySel_rest (inp := inp) s n nd (selDecision inp n nd)
-            simp [restOf, hr, hsu, rOf, a, b, c, d]
+            simp [restOf, hr, hsu, rOf, a, b, c]
           cases hd : selDecision inp n nd with
           | go =>
             simp only [hd] at hs; cases hs
@@ -249,16 +255,16 @@ theorem serialStep_mlt (hF : FiniteTable inp N) {s s' : Sys} {perm : List Name}
   | sExec n =>
     simp only [hr] at hs
     cases hn : s.nodes n with
-    | none => simp only [hn] at hs; cases hs; exact mlt_same rfl (by simp [restOf, raise, hr, rOf])
+    | none => simp only [hn] at hs; cases hs; exact mlt_same rfl (by cases hcur : s.cur <;> simp [restOf, raise, hr, rOf, hcur])
     | some nd =>
       simp only [hn] at hs; cases hs
       refine mlt_sameM (sameM_status hn (resStatus (inp.outcome n)) ?_) ?_
       · show (processResult inp _ n nd).nodes = _
         rw [processResult_nodes]; rfl
       · obtain ⟨a, b, c, d⟩ := processResult_rest (inp := inp)
-          { s with events := Ev.fin n 0 :: s.events } n nd
-        simp [restOf, hr, rOf, a, b, c, d]
-  | fin => simp only [hr] at hs; cases hs; exact mlt_same rfl (by simp [restOf, finishRun, hr, rOf])
+          { s with rpc := .sExec n, events := Ev.fin n 0 :: s.events } n nd
+        simp [restOf, hr, rOf, a, b, c] <;> omega
+  | fin => simp only [hr] at hs; cases hs; exact mlt_same rfl (by cases hcur : s.cur <;> simp [restOf, finishRun, hr, rOf, hcur])
   | gEntry a b => simp only [hr] at hs; cases hs
   | gLoop a b => simp only [hr] at hs; cases hs
   | gWait a => simp only [hr] at hs; cases hs
